@@ -51,7 +51,7 @@ REQUIRED = ["histories", "operations", "open_log_checks", "index_ops", "negative
             "slice_ops", "iterate_ops", "filter_ops", "out_of_range_ops", "chain_elements_checked",
             "chain_negative_indices", "chain_empty_members", "populations_rows_checked", "populations_slices_checked",
             "to_population_checked", "map_checked", "map_verbose_checked", "map_then_read_audited", "listing_order_injected",
-            "large_populations", "roots_spelled_differently",
+            "large_populations", "roots_spelled_differently", "slices_of_sliced_populations",
             "transform_checked", "tap_load", "symbolic_link_entries",
             "audit_file_opens"]
 FLOOR = {"quick": 250, "thorough": 20000}
@@ -239,6 +239,32 @@ def check_history(ctx, case, tmp):
                                                          f"semantics give {len(want)}", case)
                 if verify_log(ops[-1] + " (slicing alone must not read)"):
                     return
+                if want and rng.random() < 0.5:
+                    # a population made of that slice, sliced again (reversed, strided, with
+                    # stops beyond either end): still list semantics, still nothing read
+                    from swcgeom.core import Population as _P
+
+                    m_ = len(want)
+                    a2, b2 = (int(v) for v in rng.integers(-m_ - 2, m_ + 3, 2))
+                    sl2 = slice(a2 if rng.random() < .6 else None, b2 if rng.random() < .6 else None,
+                                int(rng.choice([-1, -1, -2, 1, 2, -3])))
+                    with warnings.catch_warnings():
+                        warnings.simplefilter("ignore")
+                        sub = _P(s)
+                    # (constructing a population may probe its first member: the statement's
+                    # "possible probe of the first file at construction")
+                    requested.add(want[0])
+                    s2, want2 = sub[sl2], want[sl2]
+                    ops.append(f"{ops[-1]}[{sl2.start}:{sl2.stop}:{sl2.step}]")
+                    ctx.count("slices_of_sliced_populations")
+                    if len(s2) != len(want2):
+                        return ctx.violation("slice-length", f"{ops[-1]} has length {len(s2)}, "
+                                                             f"list semantics give {len(want2)}",
+                                             case)
+                    if verify_log(ops[-1] + " (slicing alone must not read)"):
+                        return
+                    if want2:
+                        s, want = s2, want2
                 if want:
                     j = int(rng.integers(-len(want), len(want)))
                     ops.append(f"{ops[-1]}[{j}]")
